@@ -10,11 +10,17 @@ DEFAULT_CFG = [1, 1, 1, 1, 1, 1, 2020, 5000000, 1000000, 5000000, 0, -1, -1, 2, 
 
 
 class VClock:
+    """virtual time in integer microseconds; every reading is a picosecond later than the previous one (a real clock never
+    stands still between two statements), which rounds away in everything the harness records but makes 'deadline - now'
+    strictly negative once the deadline has been reached"""
+
     def __init__(self):
         self.us = 0
+        self.reads = 0
 
     def monotonic(self):
-        return self.us / 1e6
+        self.reads += 1
+        return self.us / 1e6 + self.reads * 1e-12
 
 
 class RecConn:
@@ -35,6 +41,7 @@ def make_conn_class():
             self.open_calls = 0
             self.close_calls = 0
             self.send_fault = None    # exception class raised once by the next specific_send, after it has recorded the frame
+            self.send_cost = 0        # microseconds the next specific_send takes
 
         def open(self):
             self.opened = True
@@ -55,11 +62,16 @@ def make_conn_class():
 
         def specific_send(self, payload, timeout=None):
             self.log.append([2] + enc_bytes(payload))
+            if self.send_cost:
+                self.clk.us += self.send_cost      # a blocking transport: the call returns when the frame is out
+                self.send_cost = 0
             if self.send_fault is not None:
                 f, self.send_fault = self.send_fault, None
                 raise f('injected transport fault after the frame was written')
 
         def specific_wait_frame(self, timeout=2):
+            if timeout is not None and timeout < 0:
+                raise ValueError("'timeout' must be a non-negative number")      # what queue.Queue.get does, hence every connection of the library
             t = int(round(timeout * 1e6))
             self.log.append([3, t, self.clk.us])
             if self.sched and self.sched[0][0] <= self.clk.us + t:
@@ -128,6 +140,18 @@ def make_algo(kind, conn):
         def algo(level, seed, params):
             conn.log.append([5, level, -1 if params is None else params] + enc_bytes(seed))
             return bytes(reversed(seed)) + bytes([level & 0xFF, (params or 0) & 0xFF])
+        return algo
+    if kind == 5:
+        def algo(seed, params):
+            level = -1          # a local variable that happens to carry the name of an optional argument
+            conn.log.append([5, level, -1 if params is None else params] + enc_bytes(seed))
+            return bytes(reversed(seed)) + bytes([(params or 0) & 0xFF])
+        return algo
+    if kind == 6:
+        def algo(seed):
+            level, params = -1, -1
+            conn.log.append([5, level, params] + enc_bytes(seed))
+            return bytes(reversed(seed))
         return algo
     if kind >= 4:
         return Algo4(conn)
@@ -379,12 +403,22 @@ def run_history_case(c, extra_cfg=None):
     client, conn, clk = make_client(cfgv, extra_cfg)
     from harness import wrappers
     client._verif_wrappers = wrappers.marked(c)      # half of the cases go through the convenience methods where one fits
+    client._verif_reuse_objects = client._verif_reuse_memloc = ' / repeated' in c.tag     # the application keeps its argument objects
     pos = 1 + L
     nops = a[pos]
     pos += 1
     out = []
+    last_exc = None     # what the call just before this operation raised (None otherwise): "with manager: call()" hands it to __exit__
+
+    def leave(mgr, exc):
+        """the end of a with-block: __exit__ gets the exception of the statement that ended the block; a true result swallows it"""
+        if exc is None:
+            mgr.__exit__(None, None, None)
+            return False
+        return bool(mgr.__exit__(type(exc), exc, exc.__traceback__))
     for _ in range(nops):
         opc = a[pos]
+        cur_exc, last_exc = last_exc, None
         if opc == 0:
             if a[pos + 1] == 2:     # the bare form: with client.suppress_positive_response:
                 client.suppress_positive_response.__enter__()
@@ -392,7 +426,8 @@ def run_history_case(c, extra_cfg=None):
                 client.suppress_positive_response(wait_nrc=(a[pos + 1] == 1)).__enter__()
             pos += 2
         elif opc == 1:
-            client.suppress_positive_response.__exit__(None, None, None)
+            if leave(client.suppress_positive_response, cur_exc):
+                return ['CTX-SWALLOWED', 'suppress_positive_response']
             pos += 1
         elif opc == 2:
             kind = a[pos + 1]
@@ -404,7 +439,8 @@ def run_history_case(c, extra_cfg=None):
                 client.payload_override(lambda p, pre=pre, post=post: pre + p + post).__enter__()
             pos += 2
         elif opc == 3:
-            client.payload_override.__exit__(None, None, None)
+            if leave(client.payload_override, cur_exc):
+                return ['CTX-SWALLOWED', 'payload_override']
             pos += 1
         elif opc == 4:
             callid, nargs = a[pos + 1], a[pos + 2]
@@ -418,13 +454,19 @@ def run_history_case(c, extra_cfg=None):
                 d, kind = a[pos], a[pos + 1]
                 pos += 2
                 if kind == 0:
-                    sched.append((clk.us + d, b[0]))
+                    sched.append((clk.us + conn.send_cost + d, b[0]))     # arrival instants count from the end of the transmission
                     b = b[1:]
                 else:
-                    sched.append((clk.us + d, None))
+                    sched.append((clk.us + conn.send_cost + d, None))
             conn.sched = sched
             conn.log = []
+            t_before = clk.us
+            pending_cost = conn.send_cost
             res, exc = enc_outcome(lambda: do_call(client, callid, args, cb))
+            if conn.send_cost:
+                clk.us += conn.send_cost      # nothing was transmitted (the call was refused first): the time passes all the same
+                conn.send_cost = 0
+            last_exc = exc
             if exc is not None and type(exc).__name__ == 'TimeoutException':
                 conn.log.append([6, timeout_kind(exc)])
             out += res + [len(conn.log)] + [x for e in conn.log for x in e] + [clk.us]
@@ -451,6 +493,9 @@ def run_history_case(c, extra_cfg=None):
             pos += 3
         elif opc == 6:
             clk.us += a[pos + 1]
+            pos += 2
+        elif opc == 8:
+            conn.send_cost = a[pos + 1]
             pos += 2
         else:
             raise RuntimeError('bad op %r' % opc)
@@ -519,6 +564,12 @@ class H:
         """the call on a connection whose specific_send raises (error class `code`) after writing the frame"""
         self.ints += [7, code, callid, len(args)] + list(args) + [len(blobs)]
         self.blobs += list(blobs)
+        self.n += 1
+        return self
+
+    def send_cost(self, us):
+        """the next request takes `us` microseconds to transmit (the connection's send blocks that long)"""
+        self.ints += [8, us]
         self.n += 1
         return self
 
@@ -655,6 +706,8 @@ def case_ops(c):
             ops.append(('set_cfg', a[pos + 1], a[pos + 2])); pos += 3
         elif opc == 6:
             ops.append(('advance', a[pos + 1])); pos += 2
+        elif opc == 8:
+            ops.append(('send_cost', a[pos + 1])); pos += 2
         elif opc == 7:
             code, callid, nargs = a[pos + 1], a[pos + 2], a[pos + 3]
             args = a[pos + 4:pos + 4 + nargs]
